@@ -44,7 +44,7 @@ D_KINDS = ("absent", "int", "negint", "zero", "float", "negfloat", "smallfloat",
 
 
 def streams(ctx):
-    return [("random", ctx.scale(3000, 40000)), ("empty", 3)]
+    return [("random", ctx.scale(30000, 120000)), ("empty", 3)]
 
 
 def gen_case(ctx, stream, idx):
